@@ -10,13 +10,19 @@
      pp_lo, pp_hi_incl   the guard of pos:  line < pp_lo || line (>= | >) len(lines)
      pp_clamp            does the ASCII fast path stop at the end of the line (the non-ASCII path always does)
      pp_runes            unit in which the non-ASCII path advances the column: one per code point
-                         (utf8.DecodeRune) or the display width of a grapheme cluster (uniseg.Step).  The
-                         uniseg variant is modelled on its intended domain only: ASCII plus width-1, single-code-
-                         point clusters, where the one thing that differs from a code-point count is that ASCII
-                         control characters (TAB) have width 0
+                         (utf8.DecodeRune) or the display width of a grapheme cluster (uniseg.Step)
      pp_end_chars        yamlEndPos: end column = column + (character count | byte length) of the value
      pp_tag_chars        same for the tag of a TaggedStyle scalar
      pp_sr_runes         ScalarRange: column advance of a sub-range, code points or uniseg.StringWidth
+
+   github.com/rivo/uniseg is an external collaborator ([uniseg]): what uniseg.Step says about a line (its grapheme
+   clusters with their display widths) and what uniseg.StringWidth says about a string are INPUTS of the model, like
+   yaml.v3's node positions.  The correspondence feeds the library's own answers for the lines and scalars of the
+   case; the theorems quantify over every [uniseg] and state their domain explicitly ([w1_prefix]: the clusters
+   before the position are single code points of width 1 — false for a TAB (width 0), for East-Asian wide
+   characters and emoji (width 2), for combining sequences (several code points, one cluster)).  [uniseg_simple] is
+   the library on ASCII plus single-code-point clusters, with a table of the wide ones; it is what the refutations
+   are computed with (the correspondence replays the same documents against the real library).
    Executable definitions only. *)
 From Verif Require Export Base.Bytes.
 Local Open Scope Z_scope.
@@ -28,13 +34,26 @@ Record pos_params := {
 Definition slenZ (s : string) : Z := Z.of_nat (String.length s).
 
 (* ---------------- UTF-8 segmentation (utf8.DecodeRune on well-formed text) ---------------- *)
-Definition rune_size (c : ascii) : nat :=
+(* the specification of rune_size by the value of the byte *)
+Definition rune_size_N (c : ascii) : nat :=
   let n := N_of_ascii c in
   if (n <? 194)%N then 1%nat          (* ASCII; a stray continuation byte or overlong lead is RuneError, size 1 *)
   else if (n <? 224)%N then 2%nat
   else if (n <? 240)%N then 3%nat
   else if (n <? 245)%N then 4%nat
   else 1%nat.
+
+(* the same read off the bits (the oracle runs this on every byte of documents of 64 KiB and more);
+   rune_size c = rune_size_N c for all 256 bytes: Proofs/PositionsBase.v rune_size_spec *)
+Definition rune_size (c : ascii) : nat :=
+  match c with
+  | Ascii b0 b1 b2 b3 b4 b5 b6 b7 =>
+      if negb b7 || negb b6 then 1%nat
+      else if negb b5 then (if b4 || b3 || b2 || b1 then 2%nat else 1%nat)
+      else if negb b4 then 3%nat
+      else if negb b3 && (negb b2 || (negb b1 && negb b0)) then 4%nat
+      else 1%nat
+  end.
 
 (* [cps_aux s k] = (the first bytes of [s] that still belong to a code point begun earlier ([k] of them are
    outstanding), the code points after that) *)
@@ -68,22 +87,55 @@ Fixpoint is_ascii_str (s : string) : bool :=
 
 Definition is_ctl (c : ascii) : bool := let n := N_of_ascii c in (n <? 32)%N || (n =? 127)%N.
 
-(* column advance of one cluster *)
-Definition cp_width (runes : bool) (cp : string) : Z :=
-  if runes then 1
-  else match cp with
-       | String c EmptyString => if is_ctl c then 0 else 1
-       | _ => 1
-       end.
-
 Fixpoint concat_str (l : list string) : string :=
   match l with [] => EmptyString | x :: r => x +++ concat_str r end.
 
-Fixpoint sum_width (runes : bool) (l : list string) : Z :=
-  match l with [] => 0 | x :: r => cp_width runes x + sum_width runes r end.
+(* ---------------- rivo/uniseg: an external collaborator ---------------- *)
+(* u_seg s   = the grapheme clusters of s with their widths, as uniseg.Step yields them from state -1
+   u_width s = uniseg.StringWidth s *)
+Record uniseg := { u_seg : string -> list (string * Z); u_width : string -> Z }.
+
+Fixpoint sum_w (cls : list (string * Z)) : Z :=
+  match cls with [] => 0 | (_, w) :: r => w + sum_w r end.
+
+(* the library on ASCII and other single-code-point clusters: ASCII control characters have width 0, the code
+   points listed in [wide] width 2, everything else width 1 *)
+Definition cp_width (wide : list string) (cp : string) : Z :=
+  match cp with
+  | String c EmptyString => if is_ctl c then 0 else 1
+  | _ => if existsb (String.eqb cp) wide then 2 else 1
+  end.
+
+Definition seg_simple (wide : list string) (s : string) : list (string * Z) :=
+  map (fun cp => (cp, cp_width wide cp)) (chars_of s).
+
+Definition uniseg_simple (wide : list string) : uniseg :=
+  {| u_seg := seg_simple wide; u_width := fun s => sum_w (seg_simple wide s) |}.
+
+(* the clusters the walk of pos consumes *)
+Definition one_each (cs : list string) : list (string * Z) := map (fun cp => (cp, 1)) cs.
+
+Definition clusters (p : pos_params) (u : uniseg) (l : string) : list (string * Z) :=
+  if pp_runes p then one_each (chars_of l) else u_seg u l.
+
+(* the explicit domain of the theorems: the first clusters are exactly the code points [cs], each of width 1 *)
+Fixpoint w1_prefix (cls : list (string * Z)) (cs : list string) {struct cs} : bool :=
+  match cs with
+  | [] => true
+  | c :: r => match cls with
+              | (cl, w) :: cr => String.eqb cl c && (w =? 1) && w1_prefix cr r
+              | [] => false
+              end
+  end.
 
 (* ---------------- the line table: newPositionIndex ---------------- *)
-Definition is_nl (c : ascii) : bool := (N_of_ascii c =? 10)%N.
+Definition is_nl_N (c : ascii) : bool := (N_of_ascii c =? 10)%N.
+(* = is_nl_N (Proofs/PositionsBase.v is_nl_spec), read off the bits *)
+Definition is_nl (c : ascii) : bool :=
+  match c with
+  | Ascii false true false true false false false false => true
+  | _ => false
+  end.
 
 (* bytes.Cut(yaml, "\n") repeated: (first line, the other lines) *)
 Fixpoint cut_lines (s : string) : string * list string :=
@@ -109,14 +161,14 @@ Definition new_position_index (text : string) : list line_rec := index_from 0 (l
 Record hpos := { p_line : Z; p_col : Z; p_byte : Z }.
 
 (* for len(rest) > 0 && c < column { cluster ...; b, c = b+len(cluster), c+width } *)
-Fixpoint walk (runes : bool) (cps : list string) (b c column : Z) : Z :=
-  match cps with
+Fixpoint walk (cls : list (string * Z)) (b c column : Z) : Z :=
+  match cls with
   | [] => b
-  | cp :: r => if c <? column then walk runes r (b + slenZ cp) (c + cp_width runes cp) column else b
+  | (cl, w) :: r => if c <? column then walk r (b + slenZ cl) (c + w) column else b
   end.
 
 (* None = run-time panic (index out of range) *)
-Definition pos (p : pos_params) (idx : list line_rec) (line column : Z) : option hpos :=
+Definition pos (p : pos_params) (u : uniseg) (idx : list line_rec) (line column : Z) : option hpos :=
   let n := Z.of_nat (length idx) in
   if (line <? pp_lo p) || (if pp_hi_incl p then n <? line else n <=? line)
   then Some {| p_line := line; p_col := column; p_byte := 0 |}
@@ -132,7 +184,7 @@ Definition pos (p : pos_params) (idx : list line_rec) (line column : Z) : option
              Some {| p_line := line; p_col := column; p_byte := b |}
            else
              Some {| p_line := line; p_col := column;
-                     p_byte := walk (pp_runes p) (chars_of (l_line l)) (l_off l) 1 column |}
+                     p_byte := walk (clusters p u (l_line l)) (l_off l) 1 column |}
        end.
 
 (* ---------------- yaml nodes, yamlEndPos, yamlNodeRange ---------------- *)
@@ -176,23 +228,25 @@ Fixpoint end_lc (p : pos_params) (n : ynode) : Z * Z :=
       else scalar_end_lc p style tag value line col
   end.
 
-Definition yaml_end_pos (p : pos_params) (idx : list line_rec) (n : ynode) : option hpos :=
-  let (l, c) := end_lc p n in pos p idx l c.
+Definition yaml_end_pos (p : pos_params) (u : uniseg) (idx : list line_rec) (n : ynode) : option hpos :=
+  let (l, c) := end_lc p n in pos p u idx l c.
 
-Definition node_range (p : pos_params) (idx : list line_rec) (n : ynode) : option (hpos * hpos) :=
-  match pos p idx (yn_line n) (yn_col n), yaml_end_pos p idx n with
+(* (the anchor of a node is not looked at: yaml.v3 reports an anchored node at its `&`, see the C19_anchored theorems) *)
+Definition node_range (p : pos_params) (u : uniseg) (idx : list line_rec) (n : ynode) : option (hpos * hpos) :=
+  match pos p u idx (yn_line n) (yn_col n), yaml_end_pos p u idx n with
   | Some b, Some e => Some (b, e)
   | _, _ => None
   end.
 
 (* ---------------- YAMLSyntax.ScalarRange ---------------- *)
 (* None = the Go function returns nil (exported as the zero range) *)
-Definition scalar_range (p : pos_params) (n : ynode) (rng : hpos * hpos) (st en : nat) : option (hpos * hpos) :=
+Definition scalar_range (p : pos_params) (u : uniseg) (n : ynode) (rng : hpos * hpos) (st en : nat)
+  : option (hpos * hpos) :=
   let (b, e) := rng in
   if negb (yn_kind n =? 8)%N then None
   else if negb (p_line b =? p_line e) || (negb (yn_style n =? 0)%N && negb (yn_style n =? 32)%N) then None
   else
-    let w k := sum_width (pp_sr_runes p) (chars_of (stake k (yn_value n))) in
+    let w k := if pp_sr_runes p then nchars (stake k (yn_value n)) else u_width u (stake k (yn_value n)) in
     Some ({| p_line := p_line b; p_col := p_col b + w st; p_byte := p_byte b + Z.of_nat st |},
           {| p_line := p_line b; p_col := p_col b + w en; p_byte := p_byte b + Z.of_nat en |}).
 
@@ -245,20 +299,68 @@ Definition past_eol (text : string) (line col : Z) : bool :=
   | None => false
   end.
 
-(* on a non-ASCII line, a zero-width character (TAB) before the column: the uniseg walk miscounts *)
-Definition w1 (cp : string) : bool := cp_width false cp =? 1.
-
-Definition zero_width_before (p : pos_params) (text : string) (line col : Z) : bool :=
+(* on a non-ASCII line, the clusters uniseg reports before the column are not the col-1 code points with width 1
+   each (a TAB, a wide character, a combining sequence): the walk of pos miscounts *)
+Definition irregular_before (p : pos_params) (u : uniseg) (text : string) (line col : Z) : bool :=
   match line_at text line with
   | Some l => negb (pp_runes p) && negb (is_ascii_str l)
-              && negb (forallb w1 (firstn (Z.to_nat (col - 1)) (chars_of l)))
+              && negb (w1_prefix (u_seg u l) (firstn (Z.to_nat (col - 1)) (chars_of l)))
   | None => false
   end.
+
+(* ScalarRange's column advance for the first [k] bytes of [v] is not their number of code points *)
+Definition sr_irregular (p : pos_params) (u : uniseg) (v : string) (k : nat) : bool :=
+  negb (pp_sr_runes p) && negb (u_width u (stake k v) =? nchars (stake k v)).
+
+(* the (line, column) the code computes for the end of a node does not exist in the text *)
+Definition end_missing (p : pos_params) (text : string) (n : ynode) : bool :=
+  match true_byte text (fst (end_lc p n)) (snd (end_lc p n)) with Some _ => false | None => true end.
 
 (* the text at (line, col) is [value]: a plain single-line scalar located where yaml says *)
 Definition located (text : string) (line col : Z) (value : string) : bool :=
   match true_byte text line col, line_at text line with
   | Some b, Some l =>
+      negb (String.eqb value "") && complete value
+      && String.eqb (substr b (b + slenZ value) text) value
+      && (col - 1 + nchars value <=? nchars l)
+  | _, _ => false
+  end.
+
+(* ======================================================================================================
+   The same specification functions over a table of the lines with their byte offsets, computed once per document
+   (the correspondence evaluates them for thousands of positions of documents of 64 KiB and more).  Proved equal to the
+   definitions above in Proofs/PositionsScan.v (C19_fast_oracle_is_the_specification). *)
+Fixpoint offs_from (off : Z) (ls : list string) : list (Z * string) :=
+  match ls with
+  | [] => []
+  | l :: r => (off, l) :: offs_from (off + slenZ l + 1) r
+  end.
+
+Definition text_table (text : string) : list (Z * string) := offs_from 0 (lines_of text).
+
+Definition tab_line (tab : list (Z * string)) (line : Z) : option (Z * string) :=
+  if 1 <=? line then nth_error tab (Z.to_nat (line - 1)) else None.
+
+Definition true_byte_tab (tab : list (Z * string)) (line col : Z) : option Z :=
+  match tab_line tab line with
+  | Some (off, l) =>
+      let cs := chars_of l in
+      if (1 <=? col) && (col - 1 <=? Z.of_nat (length cs))
+      then Some (off + slenZ (concat_str (firstn (Z.to_nat (col - 1)) cs)))
+      else None
+  | None => None
+  end.
+
+Definition irregular_before_tab (p : pos_params) (u : uniseg) (tab : list (Z * string)) (line col : Z) : bool :=
+  match tab_line tab line with
+  | Some (_, l) => negb (pp_runes p) && negb (is_ascii_str l)
+                   && negb (w1_prefix (u_seg u l) (firstn (Z.to_nat (col - 1)) (chars_of l)))
+  | None => false
+  end.
+
+Definition located_tab (text : string) (tab : list (Z * string)) (line col : Z) (value : string) : bool :=
+  match true_byte_tab tab line col, tab_line tab line with
+  | Some b, Some (_, l) =>
       negb (String.eqb value "") && complete value
       && String.eqb (substr b (b + slenZ value) text) value
       && (col - 1 + nchars value <=? nchars l)
